@@ -19,7 +19,7 @@ type bounds struct {
 
 func boundsFor(tier string) bounds {
 	if tier == "thorough" {
-		return bounds{tier: tier, lenSingle: 4, lenPair: 3, lenPairDeep: 2, lenTriple: 1, chainDepth: 3, deepLen: 3, maxInj: 2, twoInjLen: 3}
+		return bounds{tier: tier, lenSingle: 4, lenPair: 3, lenPairDeep: 2, lenTriple: 1, chainDepth: 3, deepLen: 4, maxInj: 2, twoInjLen: 4}
 	}
 	return bounds{tier: tier, lenSingle: 3, lenPair: 2, lenPairDeep: 0, lenTriple: 1, chainDepth: 2, deepLen: 0, maxInj: 1, twoInjLen: 0}
 }
